@@ -30,6 +30,7 @@ type genCtx struct {
 	noRef     bool
 	noAnnot   bool // no non-asserting keywords (families whose base document must be undecorated)
 	anchors   bool // emit $anchor on defs and refer to them by anchor as well
+	bogus     bool // a "$id": "#bogus" was put beside a $ref (draft-07)
 	smallNums bool // instance numbers stay small (set when the document uses multipleOf: the property's
 	// domain is "quotient below 2^53 where the float arithmetic is exact")
 }
@@ -275,6 +276,15 @@ func (g *genCtx) schema(depth int, inplaceMin int) Doc {
 		case 38, 39:
 			if !g.noRef && g.ndefs > inplaceMin {
 				add("$ref", DStr(g.refTo(inplaceMin+r.intn(g.ndefs-inplaceMin))))
+				if g.draft7 && r.chance(1, 3) {
+					// draft-07: everything beside $ref is ignored, a fragment-only $id (an anchor) included
+					if r.chance(1, 2) {
+						add("$id", DStr("#bogus"))
+						g.bogus = true
+					} else {
+						add("$id", DStr(fmt.Sprintf("#anc%d", r.intn(g.ndefs))))
+					}
+				}
 			} else {
 				add("then", sub())
 			}
@@ -308,15 +318,25 @@ func (g *genCtx) document(depth int) Doc {
 		for i := 0; i < g.ndefs; i++ {
 			d := g.schema(depth-1, i+1)
 			if g.anchors {
+				ak, av := "$anchor", fmt.Sprintf("anc%d", i)
+				if g.draft7 {
+					ak, av = "$id", "#"+av // draft-07: a fragment-only $id is a plain-name anchor
+				}
 				if od, ok := d.(DObj); ok {
-					d = append(DObj{{"$anchor", DStr(fmt.Sprintf("anc%d", i))}}, od...)
+					if _, isRef := od.get("$ref"); !(g.draft7 && isRef) {
+						d = append(DObj{{ak, DStr(av)}}, od...)
+					}
 				} else {
-					d = DObj{{"$anchor", DStr(fmt.Sprintf("anc%d", i))}, {"allOf", DArr{d}}}
+					d = DObj{{ak, DStr(av)}, {"allOf", DArr{d}}}
 				}
 			}
 			defs = append(defs, DMem{fmt.Sprintf("d%d", i), d})
 		}
 		o = append(o, DMem{g.defsKey(), defs})
+	}
+	if _, hasNot := o.get("not"); g.draft7 && g.bogus && !hasNot && g.r.chance(1, 2) {
+		// a reference to the name that only an ignored $id declares: Resolve must fail
+		o = append(o, DMem{"not", DObj{{"not", DObj{{"$ref", DStr("#bogus")}}}}})
 	}
 	if g.draft7 {
 		sv := pick(g.r, []string{"http://json-schema.org/draft-07/schema#", "https://json-schema.org/draft-07/schema#"})
@@ -605,7 +625,7 @@ func genValCase(r *rng, id string, profile string) *ValCase {
 		g.uneval = true
 	case "d7":
 		g.draft7 = true
-		g.anchors = false
+		g.anchors = r.chance(1, 2)
 	}
 	doc := g.document(2 + r.intn(2))
 	var fixed []Doc
